@@ -105,7 +105,10 @@ def run_case(case: dict, driver):
             make_entry(base / rel, kind)
         if not case.get("missing_dir"):
             for name, _k, m in entries:
-                os.utime(states / name, (MTIME0 + m, MTIME0 + m))
+                # pre-existing states may carry modification times ahead of the local clock (restored
+                # backup, clock stepped back): `mtime_base` is either far in the past or in the future
+                t0 = case.get("mtime_base", MTIME0)
+                os.utime(states / name, (t0 + m, t0 + m))
         ls_arg = [] if case.get("missing_dir") else entries
         line = (f"keeper new keep={max_keep} dir=states"
                 + (f" pat={pattern}" if pattern is not None else "")
@@ -142,10 +145,14 @@ def run_case(case: dict, driver):
                 p = base / rel
                 if create and not p.exists():
                     make_entry(p, "d")
-                keeper.append(p)
+                try:
+                    keeper.append(p)
+                    aout = "ok"
+                except Exception as e:     # an implementation that cannot take this path: reported as a
+                    aout = "err " + type(e).__name__   # disagreement with the model, not a harness crash
                 exists_now = p.exists()
                 lines.append(("keeper append " if exists_now else "keeper append_missing ") + rel)
-                impl.append("ok")
+                impl.append(aout)
                 tracked.append(rel)
                 allowed.add(rel)
                 trace.append("append" if exists_now else "append-missing")
@@ -180,11 +187,9 @@ def run_case(case: dict, driver):
                 else:
                     impl.append(f"err {err} ls={show_list(after_l)}")
                 trace.append(f"cleanup:{len(removed)}" if err is None else f"cleanup:err:{err}")
-                if malformed:
+                if malformed and case.get("malformed_kind") != "files":
                     continue
                 # ---- monitor: the three clauses ----
-                if err is not None:
-                    viol(f"keeper:cleanup-raised:{err}", f"cleanup() raised {err}")
                 newest = tracked[-k:] if k > 0 else []
                 older = tracked[:len(tracked) - k] if len(tracked) > k else []
                 for p in newest:
@@ -192,6 +197,13 @@ def run_case(case: dict, driver):
                         viol("keeper:deleted-newest",
                              f"max_keep={k}: {p} is among the {k} most recently saved states "
                              f"{newest} and was deleted by cleanup()")
+                if malformed:
+                    # a removal failed or may fail (a regular file among the tracked paths): what is
+                    # deleted of the older ones is unspecified, the newest stay protected
+                    tracked = newest
+                    continue
+                if err is not None:
+                    viol(f"keeper:cleanup-raised:{err}", f"cleanup() raised {err}")
                 for p in older:
                     if p in after:
                         viol("keeper:older-kept",
@@ -278,6 +290,8 @@ def gen_case(rng, max_ops: int = 14) -> dict:
             extra.append([f"states/{n}/{matching_name(rng, pattern, 90)}", rng.choice(["d", "d", "f"])])
             nested_parents.add(f"states/{n}")
     case: dict = {"max_keep": max_keep, "pattern": pattern, "entries": entries, "extra": extra, "ops": []}
+    if rng.random() < 0.3:
+        case["mtime_base"] = 4_000_000_000     # year 2096: ahead of every directory created during the case
     if rng.random() < 0.05:
         case["missing_dir"] = True
         case["extra"] = extra = [e for e in extra if e[0].startswith("other/")]
@@ -333,7 +347,9 @@ def gen_malformed(rng) -> dict:
     if t < 0.25:
         case["max_keep"] = rng.choice([-1, -2, -10])
     elif t < 0.5:
-        # regular files whose names match the pattern
+        # regular files whose names match the pattern (rmtree fails on them: the clause "never deletes
+        # one of the newest" must hold all the same, so that clause stays monitored)
+        case["malformed_kind"] = "files"
         pat = case["pattern"] or "*.state"
         for i in range(rng.randint(1, 2)):
             name = matching_name(rng, case["pattern"], 30 + i)
